@@ -1178,6 +1178,7 @@ class DiscretizedSpaceElement(Tensor):
             except TypeError:
                 axis = (int(axis),)
 
+            axis = tuple(int(ax) % self.ndim for ax in axis)
             reduced_axes = [i for i in range(self.ndim) if i not in axis]
 
         # --- Evaluate ufunc --- #
